@@ -110,6 +110,61 @@ fn r_atoms(a: &[Atom]) -> String {
     cf::list(&a.iter().map(|x| format!("(mkAtom {} {} {})", cf::n(x.claimed), cf::n(x.key), r_payload(x.payload))).collect::<Vec<_>>())
 }
 
+
+// ---- signature bytes altered by a point of small order (outside the prime-order subgroup): invisible to the pairing,
+//      only the subgroup check of the verifier rejects it.  Decided directly on the implementation (the ideal-signature
+//      model has no notion of curve points). ----
+mod torsion {
+    use blst::{BLST_ERROR, blst_p1, blst_p1_add_or_double, blst_p1_affine, blst_p1_deserialize, blst_p1_double, blst_p1_from_affine,
+               blst_p1_in_g1, blst_p1_is_inf, blst_p1_on_curve, blst_p1_serialize, blst_p1_uncompress};
+    const R_BE: [u8; 32] = [0x73, 0xed, 0xa7, 0x53, 0x29, 0x9d, 0x7d, 0x48, 0x33, 0x39, 0xd8, 0x08, 0x09, 0xa1, 0xd8, 0x05,
+                            0x53, 0xbd, 0xa4, 0x02, 0xff, 0xfe, 0x5b, 0xfe, 0xff, 0xff, 0xff, 0xff, 0x00, 0x00, 0x00, 0x01];
+    fn mul_by_r(p: &blst_p1) -> blst_p1 {
+        let mut acc = blst_p1::default();
+        for byte in R_BE { for bit in (0..8).rev() {
+            let mut dbl = blst_p1::default();
+            unsafe { blst_p1_double(&mut dbl, &acc) };
+            acc = dbl;
+            if (byte >> bit) & 1 == 1 { let mut sum = blst_p1::default(); unsafe { blst_p1_add_or_double(&mut sum, &acc, p) }; acc = sum; }
+        } }
+        acc
+    }
+    pub fn small_order_point() -> Option<blst_p1> {
+        for x in 1u8..=255 {
+            let mut c = [0u8; 48]; c[0] = 0x80; c[47] = x;
+            let mut a = blst_p1_affine::default();
+            if unsafe { blst_p1_uncompress(&mut a, c.as_ptr()) } != BLST_ERROR::BLST_SUCCESS { continue; }
+            let mut p = blst_p1::default();
+            unsafe { blst_p1_from_affine(&mut p, &a) };
+            let t = mul_by_r(&p);
+            if unsafe { !blst_p1_is_inf(&t) && blst_p1_on_curve(&t) && !blst_p1_in_g1(&t) } { return Some(t); }
+        }
+        None
+    }
+    /// every 96-byte window of `bytes` that is a serialized subgroup point, with the small-order point added
+    pub fn altered(bytes: &[u8]) -> Vec<Vec<u8>> {
+        let Some(t) = small_order_point() else { return vec![] };
+        let mut out = Vec::new();
+        if bytes.len() < 96 { return out; }
+        for i in 0..=bytes.len() - 96 {
+            let w = &bytes[i..i + 96];
+            if w.iter().all(|b| *b == 0) { continue; }
+            let mut a = blst_p1_affine::default();
+            if unsafe { blst_p1_deserialize(&mut a, w.as_ptr()) } != BLST_ERROR::BLST_SUCCESS { continue; }
+            let mut p = blst_p1::default();
+            unsafe { blst_p1_from_affine(&mut p, &a) };
+            if unsafe { blst_p1_is_inf(&p) || !blst_p1_in_g1(&p) } { continue; }
+            let mut q = blst_p1::default();
+            let mut ser = [0u8; 96];
+            unsafe { blst_p1_add_or_double(&mut q, &p, &t); blst_p1_serialize(ser.as_mut_ptr(), &q); }
+            let mut b = bytes.to_vec();
+            b[i..i + 96].copy_from_slice(&ser);
+            if b != bytes { out.push(b); }
+        }
+        out
+    }
+}
+
 pub fn gen_c09(seed: u64, tier: Tier) -> CaseSet {
     let mut rng = Rng::new(seed ^ 0xC09);
     let mut ring = KeyRing::new();
@@ -128,7 +183,8 @@ pub fn gen_c09(seed: u64, tier: Tier) -> CaseSet {
         cases.push(txt); descr.push(d);
         *cid += 1;
     };
-    for _ in 0..nbase {
+    let mut torsion_tried = 0u64;
+    for base_i in 0..nbase {
         let (stakes, fam) = stake_family(&mut rng);
         let n = stakes.len() as u64;
         let keys = ring.get(stakes.len() + 3);
@@ -245,6 +301,18 @@ pub fn gen_c09(seed: u64, tier: Tier) -> CaseSet {
         }
         for (name, spec) in specs {
             let Some((cert, declared)) = build_cert(keys, &infos, &spec) else { continue };
+            if name == "valid" && base_i % 4 == 0 {
+                // the valid certificate with each aggregate signature altered by a small-order point must be rejected
+                let bytes = wincode::serialize(&cert).expect("serialize");
+                for alt in torsion::altered(&bytes) {
+                    torsion_tried += 1;
+                    if let Ok(c2) = alpenglow::network::deserialize::<Cert>(&alt) {
+                        let ei = epoch.clone();
+                        let r = catch_unwind(AssertUnwindSafe(|| ValidatedCert::try_new(c2, ei.epoch_info())));
+                        match r { Ok(Err(_)) => {} Ok(Ok(_)) => stats.harness_findings.push((cid, "validate:signature-plus-small-order-point:cert-admitted".into())), Err(_) => stats.harness_findings.push((cid, "validate:signature-plus-small-order-point:panic".into())) }
+                    }
+                }
+            }
             let ei = epoch.clone();
             let r = catch_unwind(AssertUnwindSafe(|| ValidatedCert::try_new(cert, ei.epoch_info())));
             let v = match r { Err(_) => "V9Panic", Ok(Ok(_)) => "V9Ok", Ok(Err(e)) => if format!("{:?}", e).contains("Insufficient") { "V9InsufficientStake" } else { "V9InvalidSignature" } };
@@ -256,10 +324,11 @@ pub fn gen_c09(seed: u64, tier: Tier) -> CaseSet {
             push(&mut cases, &mut descr, &mut sigs, &mut stats, &mut seen, txt, format!("case {}: cert kind {} mutation {} ({} validators, {})", cid, spec.kind, name, n, fam), v, name, &mut cid);
         }
     }
-    stats.rule = "for each base epoch (stake families of C03) one valid vote and one valid certificate of a random kind with the signer subset exactly at the threshold, plus the mutation catalogue: votes - other signer named, signed by another key, signature for another slot / hash / vote kind (real signatures transplanted on the wire level), signer index n / n+k / huge; certificates - subset just below / above the threshold, declared stake inflated (also below threshold), one signature by another key, two signatures exchanged, signature for another slot / hash, halves' signatures swapped, signatures from another vote kind, the same validators in both halves, bitmask longer / shorter than the validator set, signer bit beyond the validator set; non-trivial = a mutated message; distinct by content".into();
+    stats.rule = "for each base epoch (stake families of C03) one valid vote and one valid certificate of a random kind with the signer subset exactly at the threshold, plus the mutation catalogue: votes - other signer named, signed by another key, signature for another slot / hash / vote kind (real signatures transplanted on the wire level), signer index n / n+k / huge; certificates - subset just below / above the threshold, declared stake inflated (also below threshold), one signature by another key, two signatures exchanged, signature for another slot / hash, halves' signatures swapped, signatures from another vote kind, the same validators in both halves, bitmask longer / shorter than the validator set, signer bit beyond the validator set; every fourth valid certificate additionally with a point of small order (outside the prime-order subgroup, invisible to the pairing) added to each of its aggregate signatures on the wire - must be rejected; non-trivial = a mutated message; distinct by content".into();
     let mut v: Vec<_> = verdicts.into_iter().collect(); v.sort();
     stats.distribution.push(("verdicts".into(), v.iter().map(|(k, c)| format!("{}={}", k, c)).collect::<Vec<_>>().join(", ")));
     let mut v: Vec<_> = muts.into_iter().collect(); v.sort();
+    stats.distribution.push(("certificates_with_a_small_order_point_added_to_an_aggregate_signature".into(), torsion_tried.to_string()));
     stats.distribution.push(("mutations".into(), v.iter().map(|(k, c)| format!("{}={}", k, c)).collect::<Vec<_>>().join(", ")));
     CaseSet { header: "From AG Require Import Model.Pool Model.Validate Oracle.C09.\n".to_string(), runner: "c09_run".to_string(), defs: Vec::new(), cases, descr, sigs, stats }
 }
